@@ -190,6 +190,30 @@ def main(tier):
                                                                                                 "line": f"lines - {hx(tx)}", "observed": impl_lines[tx], "required": impl_lines[s]})
     c.cov["spec_checks"]["impl lines(T x) == impl lines(x), T in to_crlf/to_cr/mixed/add_final_nl/nul_to_fffd"] = nl
 
+    # ================================================================== correspondence process_line.bom_offset
+    # the mark is skipped on the first line only: model bom_offset(line_number, line) against what the compiled parser
+    # shows -- a mark at the start of line n+1 (n lines before it) is absent from the HTML iff the model skips it
+    bo_cases = []   # (text before the line, the line, number of lines before it)
+    for body in (b"b", b"# h", b"> q", b"- i", b"", b"\xef\xbb\xbfz", b"    c"):
+        for pre, n in ((b"", 0), (b"\n", 1), (b"x\n", 1), (b"x\n\n", 2), (b"\n\n\n", 3), (b"> q\n\n- i\n\n", 4)):
+            if n == 0 and body.startswith(BOM):
+                continue    # the reference text (line without its first mark) would itself start with a mark on line 1
+            bo_cases.append((pre, BOM + body + b"\n", n))
+    bo_impl = vlib.run_lines(vh, [f"md html - {hx(p + l)}" for p, l, _ in bo_cases])
+    bo_model = vlib.run_lines(drv, [f"bom_offset {n} {hx(l)}" for _, l, n in bo_cases])
+    bo_ref = vlib.run_lines(vh, [f"md html - {hx(p + l[3:])}" for p, l, _ in bo_cases])
+    bo_agree = 0
+    for (p, l, n), a, m, r in zip(bo_cases, bo_impl, bo_model, bo_ref):
+        c.count(b"bom_offset:" + p + l, n > 0)
+        # model says 3: the line is read as if the mark were not there; model says 0: the mark is content and changes the output
+        skipped = a == r
+        if not a.startswith("ok ") or m not in ("ok 0", "ok 3") or skipped != (m == "ok 3"):
+            c.problem("correspondence", "process_line.bom_offset", f"line_number={n} input={hx(p + l)} impl={a[:200]} without_mark={r[:200]} model={m}",
+                      {"line": f"md html - {hx(p + l)}", "model_line": f"bom_offset {n} {hx(l)}", "impl": a, "model": m})
+        else:
+            bo_agree += 1
+    c.cov["correspondences"]["process_line.bom_offset"] = {"cases": len(bo_cases), "agree": bo_agree}
+
     # ================================================================== metamorphic search, end to end
     fixed = [  # (document, options): witnesses of the known classes and small regression inputs, every run
         (b"\xef\xbb\xbf", {}), (b"# hi\n", {"sourcepos": True}), (b"---\nfm\n---\ntext\n", {"front_matter_delimiter": "---"}),
